@@ -232,6 +232,21 @@ def run(spec, rec):
             same = (np.array_equal(cold.data, warm.data) and np.array_equal(cold.data, other.data)
                     and np.array_equal(cold.mask, warm.mask) and np.array_equal(cold.mask, other.mask))
             rec.check("cache-transparent", same, site="Spectrum.project", tags={"ndim": ndim})
+            # other users of the same memo in between: one- and two-population data dictionaries projected between the same
+            # sizes (every configuration several times), which read the memoised weights and must leave them as they are
+            if ndim <= 2 and all(n % 2 == 0 or True for n in ns):
+                pops = ["P%d" % i for i in range(ndim)]
+                dd = {}
+                for j in range(60):
+                    calls = {}
+                    for pp, n in zip(pops, ns):
+                        a = int(rng.integers(0, n + 1))
+                        calls[pp] = (a, n - a)
+                    dd["c_%d" % j] = {"segregating": ("A", "C"), "outgroup_allele": "A", "context": "-A-", "outgroup_context": "-A-", "calls": calls}
+                okd, _ = rec.noraise("project-returns", lambda: dadi.Spectrum.from_data_dict(dd, pops, to), site="Spectrum.from_data_dict")
+                again = fs.project(to)
+                rec.check("cache-transparent", np.array_equal(cold.data, again.data) and np.array_equal(cold.mask, again.mask), site="Spectrum.project",
+                          tags={"ndim": ndim, "after": "from_data_dict"}, observed={"max_abs_diff": float(np.max(np.abs(np.asarray(cold.data) - np.asarray(again.data))))})
     elif kind == "singlemask":
         # every single-entry mask for small n
         for n in range(2, spec["nmax"] + 1):
